@@ -155,9 +155,9 @@ type RunOpts struct {
 
 type shardRun struct {
 	capped []string
-	res   *WorkerResult
-	extra []*Violation // hang / heap / fatal
-	err   error
+	res    *WorkerResult
+	extra  []*Violation // hang / heap / fatal
+	err    error
 }
 
 func runWorker(o *RunOpts, prop string, shard, n int, skip []int64, skipEntries []string, trace string) (res *WorkerResult, code int, stderr string, err error) {
